@@ -33,7 +33,7 @@ CLAIMED = {
         "§6 C05",
     ),
     "C06": (
-        "Lean 4 theorems: Lloyd descent (argmin step + weighted-least-squares decomposition on lists), centroid = cluster mean, additivity over row blocks, criterion = distortion for every chunking, emLoop_spec stopping rule; Float model vs implementation for e_step / one fit iteration (NumPy, Dask, from the real initialisation) and the loop replayed on recorded criterion trajectories (exact)",
+        "Lean 4 theorems: Lloyd descent (argmin step + weighted-least-squares decomposition on lists), centroid = cluster mean, every sample in exactly one cluster's count and sum whatever the data (exact ties go to the first nearest centroid in counts and sums alike), additivity over row blocks, criterion = distortion for every chunking, emLoop_spec stopping rule; Float model vs implementation for e_step / one fit iteration (NumPy, Dask, from the real initialisation) and the loop replayed on recorded criterion trajectories (exact)",
         "Proof: one k-means iteration never increases the sum (mean) of squared distances to the nearest centroid, every centroid is the mean of the samples nearest to its predecessor, the reported criterion is the mean squared distance for the entering centroids for every list of row blocks, the iteration is chunking-independent, and fit stops by the stated rule. Tie: K correspondence of e_step and one iteration, O correspondence of the stop index incl. exact boundary thresholds.",
         "Real arithmetic; dask_ml k_init not modelled (initial centroids are an input, obtained from the real initialize); ties and empty clusters are outside the descent clause (empty clusters are C13's subject).",
         "§6 C06",
